@@ -2,7 +2,13 @@ CONSTANTS
   CodeKeys = FALSE
   HasFV = TRUE
   HasImages = TRUE
+  StoreFailed = FALSE
+  PosKeyMode = "abs"
+  IdxKeyMode = "abs"
   MaxDepth = 4
+  MaxDepthDmg = 3
+  MaxDepthCollide = 3
+  Families = {"intact", "dmg", "collide"}
 SPECIFICATION Spec
 VIEW View
 INVARIANTS AllPure ModelExact
